@@ -243,6 +243,23 @@ def rule_match(clo, required=True):
     return max(ms, key=lambda m: len(m["arms"]))
 
 
+def keyword_guarded(G, n):
+    """the word-like literal of a statement rule is followed by !identifier_rest or mandatory layout (no comment)"""
+    s = G.seq(G.expr(n))
+    idx = next((i for i, e in enumerate(s) if e["k"] == "str" and e["v"] and (e["v"][0].isalpha() or e["v"][0] == "_")), None)
+    if idx is None:
+        return None, "no keyword literal found in %s" % n
+    ok = False
+    if idx + 1 < len(s):
+        nx = s[idx + 1]
+        if nx["k"] == "neg" and nx["e"]["k"] == "ident" and nx["e"]["v"] == "identifier_rest":
+            ok = True
+        else:
+            g = G.is_ws_gap(nx)
+            ok = g is not None and bool(g[1]) and "comment" not in g[0]
+    return ok, "keyword %r followed by a guard: %s" % (s[idx]["v"], ok)
+
+
 def run(ctx):
     core = ctx.core
     CRATE[0] = core
